@@ -3,6 +3,7 @@ import Pywbem.Model.Request
 import Pywbem.Model.Sendable
 import Pywbem.Model.CimJson
 import Pywbem.Generated.Dtd
+import Pywbem.Model.XmlParse
 open Lean Pywbem.Proto Pywbem.Model Pywbem.Model.XmlText Pywbem.Model.CimJson
 
 /-! C03 driver.  One JSON object per line:
@@ -14,6 +15,7 @@ open Lean Pywbem.Proto Pywbem.Model Pywbem.Model.XmlText Pywbem.Model.CimJson
   {"op":"export","arg":arg,"codec":tables}
         -> {"ok":{"headers":[[k,v],…],"xml":cps,"valid":b,"why":…,"agree":b}} | {"exc":name}
   {"op":"lrsp","kind":"ok"|"err","msgid":cps,"method":cps,"code":n,"desc":cps} -> {"xml":cps,"valid":b,"why":…}
+  {"op":"par","text":cps}                                     -> {"tree":xml|null,"valid":b,"why":…}   (XmlParse.par on a document text)
   {"op":"match","elem":cps,"kids":[cps,…]}                   -> {"match":b|null}   (content model of a declared element) -/
 
 open Pywbem.Model.Req Pywbem.Model.Dtd
@@ -109,11 +111,11 @@ def handle (j : Json) : Json :=
       let args : List (String × Arg) := match getField j "args" with
         | .obj kv => kv.toList.map (fun (k, v) => (k, argOfJson v))
         | _ => []
-      reqOutJ (runOp C ((getChars j "dn").getD []) spec (argOfJson (getField j "ns")) args)
+      reqOutJ (sendOp C ((getChars j "dn").getD []) spec (argOfJson (getField j "ns")) args)
   | some "invoke" =>
-    reqOutJ (methodcall C (keyCodecOfJson j) ((getChars j "dn").getD []) (argOfJson (getField j "method"))
+    reqOutJ (sendInvoke C (keyCodecOfJson j) ((getChars j "dn").getD []) (argOfJson (getField j "method"))
       (argOfJson (getField j "obj")) ((getArr j "params").map mparamOfJson))
-  | some "export" => reqOutJ (exportIndication C (argOfJson (getField j "arg")))
+  | some "export" => reqOutJ (sendExport C (argOfJson (getField j "arg")))
   | some "lrsp" =>
     let msgid := (getChars j "msgid").getD []
     let m := (getChars j "method").getD []
@@ -121,6 +123,11 @@ def handle (j : Json) : Json :=
       | some "ok" => listenerSuccess msgid m
       | _ => listenerError msgid m ((getNat j "code").getD 0) ((getChars j "desc").getD [])
     Json.mkObj ([("xml", cpsToJson t.ser)] ++ validJ t)
+  | some "par" =>
+    -- the proved parser on a real document text: the tree the receiver sees, and the validator's verdict on it
+    match Pywbem.Model.XmlParse.par ((getChars j "text").getD []) with
+    | some t => Json.mkObj ([("tree", xmlToJson t)] ++ validJ t)
+    | none => Json.mkObj [("tree", Json.null), ("valid", false), ("why", "not accepted by par")]
   | some "match" =>
     match lookupElem theDtd ((getChars j "elem").getD []) with
     | some { content := .children r, .. } =>
